@@ -90,6 +90,25 @@ def answer (l : String) : String :=
       let pa := (Psi.map List.toArray).toArray
       showMat (toMat S.length mean.length (inverseTransform Psi.length r (rd ma) (rd2 sa) (rd2 pa)))
     | _, _, _, _ => "bad"
+  | ["gramroute", sg, vv, ts, ds] =>
+    -- Gram route: σ² per component, eigenvectors N×K, grids t_1|t_2|…, curves D_1|D_2|… (each N×n_p)
+    match parseVec? sg, parseMat? vv, parseBlocks? ts, parseBlocks? ds with
+    | some sig, some V, some T, some D =>
+      let P := D.length
+      if sig.length ≠ P ∨ T.length ≠ P then "error:shape" else
+      let N := (D.headD []).length
+      let K := (V.headD []).length
+      let sa := sig.toArray
+      let va := (V.map List.toArray).toArray
+      let tarr := (T.map fun b => (b.headD []).toArray).toArray
+      let darr := (D.map fun b => (b.map List.toArray).toArray).toArray
+      let nf : ℕ → ℕ := fun p => (tarr.getD p #[]).size
+      let tf : ℕ → ℕ → ℚ := fun p => rd (tarr.getD p #[])
+      let df : ℕ → ℕ → ℕ → ℚ := fun p => rd2 (darr.getD p #[])
+      let G := toMat N N (gramRouteMatrix P nf tf df (rd sa))
+      let nums := (List.range P).map fun p => showMat (toMat K (nf p) (gramEigenNum N (df p) (rd2 va)))
+      showMat G ++ " " ++ "|".intercalate nums
+    | _, _, _, _ => "bad"
   | _ => "bad-op"
 
 def main : IO Unit := serve answer
